@@ -73,6 +73,58 @@ def t_sim(E):
         E.refutable("static.step.simulate", E.eq(h.fields["key_counter"], c))
 
 
+def _two_sites(E, cls, fname, extra_args):
+    """C04 for the static language: two consecutive trace sites visited from an ARBITRARY reachable handler state (any site
+    counter, any handler key that descends from the caller's key).  Whatever derivation scheme the handler uses, the keys it
+    hands to the two sites descend from the caller's key and neither is an ancestor-or-equal of the other; the state after
+    the first site is again of the assumed form (so this covers every pair of consecutive sites of every program)."""
+    from theory import keys as K
+    z3, T, I = E.z3, E.I.T, E.I
+    k = key(E)
+    h = E.I.call(E.cls(S_ + cls), [k] + extra_args, {})
+    sites, c, init_ok = arbitrary_state(E, h)
+    hk = key(E, "handler_key_now")
+    depth = K._fns(I)[0]
+    E.assume(z3.And(depth(k.t) >= 0, depth(hk.t) >= 0, K._fns(I)[1](hk.t, depth(hk.t)) == hk.t, K.ancestor_or_equal(I, k.t, hk.t)))
+    E.prove(f"C04.{cls}.init.handler_key_is_the_given_key", E.eq(h.fields["key"], k))
+    h.fields["key"] = hk
+    (ad1, g1, a1), (ad2, g2, a2) = site(E), site(E)
+    E.assume(ad1.t != ad2.t)
+    st1, _ = E.attempt(lambda: E.method(h, "handle_trace", ad1, g1, a1))
+    if st1 != "ok":
+        return
+    hk1 = h.fields["key"]
+    t1 = z3.simplify(z3.Select(h.fields["traces"].val, ad1.t))
+    st2, _ = E.attempt(lambda: E.method(h, "handle_trace", ad2, g2, a2))
+    if st2 != "ok":
+        return
+    E.cover(f"static.keys.{cls}.two_sites")
+    t2 = z3.simplify(z3.Select(h.fields["traces"].val, ad2.t))
+    k1, k2 = K.key_of(t1, fname), K.key_of(t2, fname)
+    E.require(f"C04.{cls}.handle_trace.each_site_runs_the_callee_with_a_key", k1 is not None and k2 is not None)
+    for nm, kk in (("first", k1), ("second", k2)):
+        E.prove(f"C04.{cls}.handle_trace.{nm}_site_key_descends_from_the_given_key", E.Implies(
+            z3.And(K.facts(I, [kk, k.t, hk.t], [depth(k.t)])), K.ancestor_or_equal(I, k.t, kk)))
+    E.prove(f"C04.{cls}.handle_trace.consecutive_sites_draw_independently", K.independent(I, k1, k2))
+    E.prove(f"C04.{cls}.handle_trace.handler_key_still_descends_from_the_given_key", E.Implies(
+        z3.And(K.facts(I, [I.to_u(hk1), k.t, hk.t], [depth(k.t)])), K.ancestor_or_equal(I, k.t, I.to_u(hk1))))
+    # a site key is never the handler's own key (from which later site keys are derived)
+    E.prove(f"C04.{cls}.handle_trace.site_key_is_not_the_key_later_sites_derive_from", E.Implies(
+        z3.And(K.facts(I, [k1, k2, I.to_u(h.fields["key"]), hk.t], [depth(k1), depth(k2)])),
+        z3.And(z3.Not(K.ancestor_or_equal(I, k1, I.to_u(h.fields["key"]))), z3.Not(K.ancestor_or_equal(I, k2, I.to_u(h.fields["key"]))))))
+    E.refutable(f"static.keys.{cls}", k1 == k2)
+
+
+@task("static.keys.simulate", props=["C04"], functions=FUNCS)
+def t_keys_sim(E):
+    _two_sites(E, "SimulateHandler", "gf_simulate", [])
+
+
+@task("static.keys.generate", props=["C04"], functions=FUNCS)
+def t_keys_gen(E):
+    _two_sites(E, "GenerateHandler", "gf_generate_tr", [chm(E, "constraint")])
+
+
 @task("static.step.assess", props=["C01", "C02", "C22"], functions=FUNCS)
 def t_assess(E):
     z3, T, SL = E.z3, E.I.T, E.I.SL
